@@ -411,7 +411,7 @@ Definition jfinalize (pf : bytes -> option Z) (p : jparser) (s : sink) : option 
     if jp_cur p =? jNumber then
       match report_number pf s (jp_lit p) (jp_isdbl p) with
       | None => None
-      | Some (s1, e) => if jisnil e then Some (jpop p, s1, jpnil, true) else Some (p, s1, e, false)
+      | Some (s1, e) => if jisnil e then Some (jset_lit (jpop p) [], s1, jpnil, true) else Some (jset_lit p [], s1, e, false)
       end
     else Some (p, s, jpnil, true) in
   match r with
